@@ -21,6 +21,7 @@ def main(argv=None):
     ap.add_argument("--jobs", type=int)
     ap.add_argument("--max-seconds", type=int)
     ap.add_argument("--digests", help="internal: print trace digests of the given run indices")
+    ap.add_argument("--isolate", action="store_true", help="internal: execute every --digests index in its own forked child (pristine process state)")
     ap.add_argument("--show", type=int, help="run one seeded run index verbosely")
     args = ap.parse_args(argv)
     prop = args.prop.upper()
@@ -34,8 +35,18 @@ def main(argv=None):
         engine.setup_process()
         mod = engine.load_prop(prop)
         for i in [int(x) for x in args.digests.split(",") if x]:
-            r = engine.run_seeded(mod, seed, i)
-            print("DIGEST %d %s" % (i, r.get("digest") or "none"))
+            if args.isolate:
+                sys.stdout.flush()
+                pid = os.fork()
+                if pid == 0:
+                    r = engine.run_seeded(mod, seed, i)
+                    print("DIGEST %d %s" % (i, r.get("digest") or "none"))
+                    sys.stdout.flush()
+                    os._exit(0)
+                os.waitpid(pid, 0)
+            else:
+                r = engine.run_seeded(mod, seed, i)
+                print("DIGEST %d %s" % (i, r.get("digest") or "none"))
         return 0
     if args.show is not None:
         import json
